@@ -146,3 +146,199 @@ theorem run_reach (s : St) (es : List Ev) : Reach s.tbl (run s es).tbl := by
   induction es generalizing s with
   | nil => exact .refl _
   | cons e es ih => exact (step_reach s e).trans (ih _)
+
+/-! ## Monotonicity: only `cont_stopped(_ex)` marks a tracee running -/
+
+/-- closure of the table operations that never mark anybody running -/
+inductive MReach : Table → Table → Prop
+  | refl (T) : MReach T T
+  | add {T T'} (t) : MReach T T' → MReach T (T'.add t)
+  | remove {T T'} (t) : MReach T T' → MReach T (T'.remove t)
+  | setStop {T T'} (t) : MReach T T' → MReach T (T'.setSt t .stop)
+  | setSig {T T'} (t sg) : MReach T T' → MReach T (T'.setSt t (.sigstop sg))
+
+theorem MReach.trans {A B C : Table} (h1 : MReach A B) (h2 : MReach B C) : MReach A C := by
+  induction h2 with
+  | refl => exact h1
+  | add t _ ih => exact .add t ih
+  | remove t _ ih => exact .remove t ih
+  | setStop t _ ih => exact .setStop t ih
+  | setSig t sg _ ih => exact .setSig t sg ih
+
+/-- thread ids marked running -/
+def runningIds (T : Table) : List Tid := (T.rows.filter (fun r => r.st.isRunning)).map (·.tid)
+
+theorem mem_runningIds {T : Table} {t : Tid} :
+    t ∈ runningIds T ↔ ∃ r ∈ T.rows, r.st.isRunning = true ∧ r.tid = t := by
+  simp [runningIds, List.mem_map, List.mem_filter, and_assoc]
+
+/-- under the non-resuming operations the set of threads marked running only shrinks -/
+theorem MReach.running_subset {A B : Table} (h : MReach A B) : ∀ t, t ∈ runningIds B → t ∈ runningIds A := by
+  induction h with
+  | refl => exact fun _ h => h
+  | add t _ ih =>
+    intro x hx
+    apply ih
+    rw [mem_runningIds] at hx ⊢
+    obtain ⟨r, hr, hrun, rfl⟩ := hx
+    rcases List.mem_append.mp hr with hr | hr
+    · exact ⟨r, (List.mem_filter.mp hr).1, hrun, rfl⟩
+    · simp only [List.mem_singleton] at hr; subst hr; simp [Status.isRunning] at hrun
+  | remove t _ ih =>
+    intro x hx
+    apply ih
+    rw [mem_runningIds] at hx ⊢
+    obtain ⟨r, hr, hrun, rfl⟩ := hx
+    exact ⟨r, (List.mem_filter.mp hr).1, hrun, rfl⟩
+  | setStop t _ ih =>
+    intro x hx
+    apply ih
+    rw [mem_runningIds] at hx ⊢
+    obtain ⟨r, hr, hrun, rfl⟩ := hx
+    obtain ⟨r0, hr0, rfl⟩ := List.mem_map.mp hr
+    by_cases c : (r0.tid == t) <;> simp [c, Status.isRunning] at hrun ⊢
+    exact ⟨r0, hr0, hrun, rfl⟩
+  | setSig t sg _ ih =>
+    intro x hx
+    apply ih
+    rw [mem_runningIds] at hx ⊢
+    obtain ⟨r, hr, hrun, rfl⟩ := hx
+    obtain ⟨r0, hr0, rfl⟩ := List.mem_map.mp hr
+    by_cases c : (r0.tid == t) <;> simp [c, Status.isRunning] at hrun ⊢
+    exact ⟨r0, hr0, hrun, rfl⟩
+
+theorem mreach_finish (T : Table) (t : Tid) : MReach T (T.finish t) := by
+  unfold Table.finish; split
+  · exact .setStop _ (.refl _)
+  · exact .refl _
+
+macro "mreach_one" : tactic => `(tactic| first
+  | exact MReach.refl _
+  | exact MReach.setStop _ (MReach.refl _)
+  | exact MReach.setSig _ _ (MReach.refl _)
+  | exact MReach.add _ (MReach.refl _)
+  | exact MReach.remove _ (MReach.refl _)
+  | exact mreach_finish _ _)
+
+theorem unwind_mreach : ∀ (fuel : Nat) (s : St) (v : Ret), MReach s.tbl (unwind fuel s v).tbl := by
+  intro fuel
+  induction fuel with
+  | zero => intro s v; exact .refl _
+  | succ n ih =>
+    intro s v
+    cases v <;> simp only [unwind] <;> repeat' split
+    all_goals first
+      | exact .refl _
+      | (refine MReach.trans ?_ (ih _ _); first | exact .refl _ | exact mreach_finish _ _)
+      | (simp; exact .refl _)
+
+theorem ret_mreach (s : St) (r : Option Reason) : MReach s.tbl (ret s r).tbl := unwind_mreach _ _ _
+
+theorem groupStop_mreach (s : St) (init : Option Tid) : MReach s.tbl (groupStop s init).tbl := by
+  simp only [groupStop]
+  repeat' split
+  all_goals first
+    | mreach_one
+    | (refine MReach.trans ?_ (unwind_mreach _ _ _); mreach_one)
+
+theorem applyNew_mreach (s : St) (w : WSt) : MReach s.tbl (applyNew s w).tbl := by
+  simp only [applyNew]
+  repeat' split
+  all_goals first
+    | mreach_one
+    | (refine MReach.trans ?_ (ret_mreach _ _); mreach_one)
+    | (simp; mreach_one)
+
+theorem onIntr_mreach (s : St) (i : Option Tid) (rd : Nat) (td : List Tid) (t : Tid) (r : Ans) :
+    MReach s.tbl (onIntr s i rd td t r).tbl := by
+  simp only [onIntr]
+  repeat' split
+  all_goals first
+    | mreach_one
+    | (refine MReach.trans ?_ (unwind_mreach _ _ _); mreach_one)
+
+theorem cmdContinue_mreach (s : St) : MReach s.tbl (cmdContinue s).tbl := by
+  simp only [cmdContinue]
+  repeat' split
+  all_goals first
+    | mreach_one
+    | (simp; mreach_one)
+
+/-- the one transition that marks a tracee running: a successful `PTRACE_CONT` issued by `cont_stopped(_ex)` -/
+def isResumeCont (s : St) (e : Ev) : Prop :=
+  ∃ inj excl vis g t sg, s.aw = .contAll inj excl vis g ∧ e = .cont t sg .ok
+
+theorem step_mreach (s : St) (e : Ev) (h : ¬ isResumeCont s e) : MReach s.tbl (step s e).tbl := by
+  simp only [step]
+  repeat' split
+  all_goals first
+    | mreach_one
+    | (simp; mreach_one)
+    | (refine MReach.trans ?_ (ret_mreach _ _); mreach_one)
+    | (refine MReach.trans ?_ (unwind_mreach _ _ _); mreach_one)
+    | (refine MReach.trans ?_ (applyNew_mreach _ _); mreach_one)
+    | (refine MReach.trans ?_ (groupStop_mreach _ _); mreach_one)
+    | (refine MReach.trans ?_ (onIntr_mreach _ _ _ _ _ _); mreach_one)
+    | (refine MReach.trans ?_ (onIntr_mreach _ _ _ _ _ _); refine MReach.trans ?_ (groupStop_mreach _ _); mreach_one)
+    | (exfalso; apply h; simp_all [isResumeCont])
+
+/-! ## Coverage argument of the group stop -/
+
+/-- every thread marked running is still on the group stop's list -/
+def Cov (T : Table) (acc : List Tid) : Prop := ∀ t ∈ runningIds T, t ∈ acc
+
+theorem isRunning_iff {T : Table} {t : Tid} : T.isRunning t = true ↔ t ∈ runningIds T := by
+  simp only [Table.isRunning, List.any_eq_true, mem_runningIds, Bool.and_eq_true, beq_iff_eq]
+  constructor
+  · rintro ⟨r, hr, h1, h2⟩; exact ⟨r, hr, h2, h1⟩
+  · rintro ⟨r, hr, h1, h2⟩; exact ⟨r, hr, h2, h1⟩
+
+theorem cov_keys (T : Table) : Cov T T.keys := by
+  intro t ht
+  obtain ⟨r, hr, _, rfl⟩ := mem_runningIds.mp ht
+  exact List.mem_map.mpr ⟨r, hr, rfl⟩
+
+theorem cov_mreach {A B : Table} {acc : List Tid} (h : MReach A B) (c : Cov A acc) : Cov B acc :=
+  fun t ht => c t (h.running_subset t ht)
+
+theorem cov_cands_empty (s : St) (todo : List Tid) (c : Cov s.tbl todo) (h : gsCands s todo = []) :
+    runningIds s.tbl = [] := by
+  apply List.eq_nil_iff_forall_not_mem.mpr
+  intro t ht
+  have h1 := c t ht
+  have h2 : s.tbl.isRunning t = true := isRunning_iff.mpr ht
+  have : t ∈ gsCands s todo := List.mem_filter.mpr ⟨h1, h2⟩
+  rw [h] at this
+  exact absurd this (List.not_mem_nil)
+
+theorem not_running_after_setStop (T : Table) (t : Tid) : t ∉ runningIds (T.setSt t .stop) := by
+  intro h
+  obtain ⟨r, hr, hrun, htid⟩ := mem_runningIds.mp h
+  obtain ⟨r0, _, rfl⟩ := List.mem_map.mp hr
+  by_cases c : (r0.tid == t) <;> simp [c, Status.isRunning] at hrun htid
+  simp [htid] at c
+
+theorem cov_setStop_erase {T : Table} {todo : List Tid} (t : Tid) (c : Cov T todo) :
+    Cov (T.setSt t .stop) (todo.erase t) := by
+  intro x hx
+  have hne : x ≠ t := fun e => not_running_after_setStop T t (e ▸ hx)
+  have := c x ((MReach.setStop t (.refl T)).running_subset x hx)
+  exact (List.mem_erase_of_ne hne).mpr this
+
+theorem cov_intr_ok {T : Table} {todo : List Tid} (t : Tid) (c : Cov T todo) : Cov T (t :: todo.erase t) := by
+  intro x hx
+  by_cases e : x = t
+  · simp [e]
+  · exact List.mem_cons_of_mem _ ((List.mem_erase_of_ne e).mpr (c x hx))
+
+theorem not_running_after_finish (T : Table) (t : Tid) : t ∉ runningIds (T.finish t) := by
+  unfold Table.finish
+  split
+  · exact not_running_after_setStop T t
+  · rename_i h; intro hm; exact h (isRunning_iff.mpr hm)
+
+theorem cov_finish {T : Table} {todo : List Tid} (cur : Tid) (c : Cov T (cur :: todo)) : Cov (T.finish cur) todo := by
+  intro x hx
+  have hne : x ≠ cur := fun e => not_running_after_finish T cur (e ▸ hx)
+  have := c x ((mreach_finish T cur).running_subset x hx)
+  simpa [hne] using this
